@@ -364,7 +364,8 @@ double max_outside(const M & m, const std::vector<char> & mask)
   return e;
 }
 
-template<typename G>
+/// Hess = false: groups without second-order derivatives (Galilei, SE_K_3): the d2 clauses are vacuous, the rest is judged
+template<typename G, bool Hess = true>
 void pattern_checks(const std::string & gname, const TanSet<G> & TS)
 {
   constexpr int D = int(smooth::Dof<G>);
@@ -372,7 +373,13 @@ void pattern_checks(const std::string & gname, const TanSet<G> & TS)
   static_assert(R::Dof == D);
   const Sp & p_ad = smooth::ad_sparse_pattern<G>;
   const Sp & p_d1 = smooth::d_exp_sparse_pattern<G>;
-  const Sp & p_d2 = smooth::d2_exp_sparse_pattern<G>;
+  const Sp empty_d2(D, D * D);
+  const Sp & p_d2 = [&]() -> const Sp & {
+    if constexpr (Hess)
+      return smooth::d2_exp_sparse_pattern<G>;
+    else
+      return empty_d2;
+  }();
   const auto m_ad = stored_mask(p_ad), m_d1 = stored_mask(p_d1), m_d2 = stored_mask(p_d2);
 
   // structural facts about the published objects (documented: "pre-allocated ... and compressed")
@@ -380,7 +387,7 @@ void pattern_checks(const std::string & gname, const TanSet<G> & TS)
     c.desc = [&] { return mc::fmt("nnz ad=%ld d_exp=%ld d2_exp=%ld", (long)p_ad.nonZeros(), (long)p_d1.nonZeros(), (long)p_d2.nonZeros()); };
     c.require("ad_sparse_pattern compressed DofxDof", p_ad.isCompressed() && p_ad.rows() == D && p_ad.cols() == D);
     c.require("d_exp_sparse_pattern compressed DofxDof", p_d1.isCompressed() && p_d1.rows() == D && p_d1.cols() == D);
-    c.require("d2_exp_sparse_pattern compressed DofxDof^2", p_d2.isCompressed() && p_d2.rows() == D && p_d2.cols() == D * D);
+    if constexpr (Hess) c.require("d2_exp_sparse_pattern compressed DofxDof^2", p_d2.isCompressed() && p_d2.rows() == D && p_d2.cols() == D * D);
   });
 
   // generators_sparse[k] == ad(e_k) of the documented algebra, exactly; stored entries within ad_sparse_pattern
@@ -415,8 +422,10 @@ void pattern_checks(const std::string & gname, const TanSet<G> & TS)
     c.judge("ad zero outside ad_sparse_pattern", max_outside<D, D>(dense_result<G, R_AD>(a), m_ad), 0.0);
     c.judge("dr_exp zero outside d_exp_sparse_pattern", max_outside<D, D>(dense_result<G, R_DEXP>(a), m_d1), 0.0);
     c.judge("dr_expinv zero outside d_exp_sparse_pattern", max_outside<D, D>(dense_result<G, R_DEXPINV>(a), m_d1), 0.0);
-    c.judge("d2r_exp zero outside d2_exp_sparse_pattern", max_outside<D, D * D>(dense_result<G, R_D2EXP>(a), m_d2), 0.0);
-    c.judge("d2r_expinv zero outside d2_exp_sparse_pattern", max_outside<D, D * D>(dense_result<G, R_D2EXPINV>(a), m_d2), 0.0);
+    if constexpr (Hess) {
+      c.judge("d2r_exp zero outside d2_exp_sparse_pattern", max_outside<D, D * D>(dense_result<G, R_D2EXP>(a), m_d2), 0.0);
+      c.judge("d2r_expinv zero outside d2_exp_sparse_pattern", max_outside<D, D * D>(dense_result<G, R_D2EXPINV>(a), m_d2), 0.0);
+    }
   });
 
   // independent: long-double reference at the generic tangents; a reference entry above 1e-9 is analytically
@@ -432,13 +441,15 @@ void pattern_checks(const std::string & gname, const TanSet<G> & TS)
     const auto J   = ref::dr_exp_ref<R>(al);
     const auto Ji  = ref::inv(J);
     Mat<L, D, D * D> H, Hi;
-    ref::d2_exp_ref<R>(al, -1, H, Hi);
+    if constexpr (Hess) ref::d2_exp_ref<R>(al, -1, H, Hi);
     const double thr = 1e-9;
     c.judge("ref ad nonzeros in ad_sparse_pattern", max_outside<D, D>(rad, m_ad), thr);
     c.judge("ref dr_exp nonzeros in d_exp_sparse_pattern", max_outside<D, D>(J, m_d1), thr);
     c.judge("ref dr_expinv nonzeros in d_exp_sparse_pattern", max_outside<D, D>(Ji, m_d1), thr);
-    c.judge("ref d2r_exp nonzeros in d2_exp_sparse_pattern", max_outside<D, D * D>(H, m_d2), thr);
-    c.judge("ref d2r_expinv nonzeros in d2_exp_sparse_pattern", max_outside<D, D * D>(Hi, m_d2), thr);
+    if constexpr (Hess) {
+      c.judge("ref d2r_exp nonzeros in d2_exp_sparse_pattern", max_outside<D, D * D>(H, m_d2), thr);
+      c.judge("ref d2r_expinv nonzeros in d2_exp_sparse_pattern", max_outside<D, D * D>(Hi, m_d2), thr);
+    }
     auto cnt = [&](const auto & m, int cols, const std::vector<char> & mask) {
       int n = 0;
       for (int cc = 0; cc < cols; ++cc)
@@ -456,17 +467,19 @@ void pattern_checks(const std::string & gname, const TanSet<G> & TS)
         (long)p_d2.nonZeros(), tight[0][4], (long)p_d2.nonZeros()));
 }
 
-template<typename G>
+template<typename G, bool Hess = true>
 void all(const std::string & gname)
 {
   const TanSet<G> TS;
   mc::note("tangents/" + gname, mc::fmt("{\"alphabet\":%zu,\"total_with_zero_axis_generic\":%zu}", TS.n_alpha, TS.T.size()));
-  pattern_checks<G>(gname, TS);
+  pattern_checks<G, Hess>(gname, TS);
   routine_checks<G, R_AD>(gname, TS);
   routine_checks<G, R_DEXP>(gname, TS);
   routine_checks<G, R_DEXPINV>(gname, TS);
-  routine_checks<G, R_D2EXP>(gname, TS);
-  routine_checks<G, R_D2EXPINV>(gname, TS);
+  if constexpr (Hess) {
+    routine_checks<G, R_D2EXP>(gname, TS);
+    routine_checks<G, R_D2EXPINV>(gname, TS);
+  }
 }
 
 }  // namespace c19
